@@ -8,6 +8,7 @@ import (
 	"math/bits"
 	"sort"
 	"strings"
+	"sync"
 	"time"
 
 	"golang.org/x/tools/go/ssa"
@@ -1104,7 +1105,138 @@ func init() {
 			fmt.Fprintf(&canon, "%d:%s=%s;", len(k), k, enc[k])
 		}
 		// Set{equivalent: Distinct{iface: <canonical string>}}
+		// the sorted, de-duplicated key/values are remembered so that ToSlice/Len/Get can answer
+		var sorted []value
+		for _, k := range keys {
+			for i := len(kvs) - 1; i >= 0; i-- {
+				if w.goString(kvs[i].(structure)[0]) == k {
+					sorted = append(sorted, kvs[i])
+					break
+				}
+			}
+		}
+		attrSetElems.Store(canon.String(), sorted)
 		return structure{structure{iface{t: types.Typ[types.String], v: canon.String()}}}
+	}
+	attrSetOf := func(p value) []value {
+		pp, _ := p.(*value)
+		if pp == nil {
+			return nil
+		}
+		st, ok := (*pp).(structure)
+		if !ok {
+			return nil
+		}
+		d, ok := st[0].(structure)
+		if !ok {
+			return nil
+		}
+		i, ok := d[0].(iface)
+		if !ok || i.t == nil {
+			return nil
+		}
+		key, ok := i.v.(string)
+		if !ok {
+			// the zero Set / emptySet holds a [0]KeyValue
+			return nil
+		}
+		v, ok := attrSetElems.Load(key)
+		if !ok {
+			panic(unsupported{"attribute.Set not built by the NewSet model"})
+		}
+		return v.([]value)
+	}
+	S["(*go.opentelemetry.io/otel/attribute.Set).ToSlice"] = func(w *Worker, fr *frame, fn *ssa.Function, args []value) value {
+		el := attrSetOf(args[0])
+		out := make([]value, len(el))
+		for i := range el {
+			out[i] = deepCopyValue(el[i], map[*value]*value{})
+		}
+		return out
+	}
+	S["(*go.opentelemetry.io/otel/attribute.Set).Len"] = func(w *Worker, fr *frame, fn *ssa.Function, args []value) value {
+		return len(attrSetOf(args[0]))
+	}
+	S["(*go.opentelemetry.io/otel/attribute.Set).Get"] = func(w *Worker, fr *frame, fn *ssa.Function, args []value) value {
+		el := attrSetOf(args[0])
+		i, ok := args[1].(int)
+		if !ok {
+			panic(unsupported{"attribute.Set.Get with a symbolic index"})
+		}
+		if i < 0 || i >= len(el) {
+			return tuple{zero(fn.Signature.Results().At(0).Type()), false}
+		}
+		return tuple{deepCopyValue(el[i], map[*value]*value{}), true}
+	}
+
+
+	// gonum's graph iterators range over Go maps through runtime.mapiterinit / reflect.mapiternext
+	// (go:linkname + unsafe).  They are modelled over the engine's insertion-ordered maps: the
+	// position lives in the iterator's own hiter struct (startBucket = entries consumed, t != nil =
+	// initialised, offset = exhausted), so Reset (hiter = hiter{}) works unchanged.
+	gonumIter := func(recv value) (*omap, structure) {
+		pp, _ := recv.(*value)
+		if pp == nil {
+			panic(unsupported{"gonum mapIter: nil receiver"})
+		}
+		st := (*pp).(structure) // {m *emptyInterface, hiter hiter}
+		mp, _ := st[0].(*value)
+		if mp == nil {
+			panic(unsupported{"gonum mapIter: no map"})
+		}
+		var m *omap
+		switch x := (*mp).(type) {
+		case iface:
+			m, _ = x.v.(*omap)
+		case *omap:
+			m = x
+		default:
+			panic(unsupported{fmt.Sprintf("gonum mapIter over %T", *mp)})
+		}
+		return m, st[1].(structure)
+	}
+	gonumCur := func(w *Worker, recv value, what string) *mentry {
+		m, h := gonumIter(recv)
+		if h[2] == nil || isNilValue(h[2]) {
+			panic(targetPanic{w.runtimeError("mapIter." + what + " called before Next")})
+		}
+		pos, _ := h[8].(uintptr)
+		if ex, _ := h[9].(uint8); ex != 0 || pos == 0 || m == nil || int(pos) > len(m.entries) {
+			panic(targetPanic{w.runtimeError("mapIter." + what + " called on exhausted iterator")})
+		}
+		return m.entries[pos-1]
+	}
+	S["(*gonum.org/v1/gonum/graph/iterator.mapIter).next"] = func(w *Worker, fr *frame, fn *ssa.Function, args []value) value {
+		m, h := gonumIter(args[0])
+		pos, _ := h[8].(uintptr)
+		if h[2] == nil || isNilValue(h[2]) {
+			pos = 0
+			h[2] = unsafePtr{p: new(value)} // initialised
+		} else if ex, _ := h[9].(uint8); ex != 0 {
+			panic(targetPanic{w.runtimeError("mapIter.next called on exhausted iterator")})
+		}
+		if m != nil {
+			for int(pos) < len(m.entries) {
+				e := m.entries[pos]
+				pos++
+				if !e.deleted {
+					h[8] = pos
+					return true
+				}
+			}
+		}
+		h[8] = pos
+		h[9] = uint8(1)
+		return false
+	}
+	S["(*gonum.org/v1/gonum/graph/iterator.mapIter).id"] = func(w *Worker, fr *frame, fn *ssa.Function, args []value) value {
+		return gonumCur(w, args[0], "id").key
+	}
+	for _, nm := range []string{"node", "line", "weightedLine"} {
+		nm := nm
+		S["(*gonum.org/v1/gonum/graph/iterator.mapIter)."+nm] = func(w *Worker, fr *frame, fn *ssa.Function, args []value) value {
+			return gonumCur(w, args[0], nm).val
+		}
 	}
 
 	// proto.Clone is reflection-driven; the messages cloned here (rpc Status) are plain data: structural deep copy
@@ -1294,6 +1426,9 @@ func init() {
 	}
 	S["sort.SliceStable"] = S["sort.Slice"]
 }
+
+// attrSetElems remembers, per canonical encoding, the sorted key/values of a modelled attribute.Set.
+var attrSetElems sync.Map
 
 func nop(w *Worker, fr *frame, fn *ssa.Function, args []value) value { return nil }
 
@@ -1611,4 +1746,17 @@ func deepCopyValue(v value, memo map[*value]*value) value {
 		return n
 	}
 	return v
+}
+
+// isNilValue reports whether an unsafe.Pointer-typed cell holds nil in any of its representations.
+func isNilValue(v value) bool {
+	switch x := v.(type) {
+	case nil:
+		return true
+	case unsafePtr:
+		return x.p == nil
+	case *value:
+		return x == nil
+	}
+	return false
 }
